@@ -195,6 +195,111 @@ func deriveCmdLine(t *Trans) *Derived {
 		}
 		line := fmt.Sprintf("cmd.commit %s %s %s %s %s %s %s %d %s", entriesOut(pre.Index), snapS, brS, anyB, cl, cg, unix, t.TZ, hx([]byte(msg)))
 		return &Derived{Line: line, Impl: impl}
+	case "reset":
+		// goit reset [--soft|--mixed|--hard] HEAD@{n}: the model decides mode, position, target commit and the
+		// staging area afterwards from the flags, the argument, the bytes of logs/HEAD and the stored snapshots
+		so, mi, ha := "0", "1", "0"
+		var rest []string
+		for _, a := range t.Args[1:] {
+			switch {
+			case a == "--soft":
+				so = "1"
+			case a == "--mixed":
+				mi = "1"
+			case a == "--hard":
+				ha = "1"
+			case strings.HasPrefix(a, "-"):
+				return nil
+			default:
+				rest = append(rest, a)
+			}
+		}
+		if len(rest) != 1 || !pre.HasLogHead || strings.ContainsAny(rest[0], "\n\x00") {
+			return nil
+		}
+		var sn []string
+		var cids []string
+		for id := range pre.Objects {
+			cids = append(cids, id)
+		}
+		sort.Strings(cids)
+		for _, id := range cids {
+			if x := pre.Objects[id]; x != nil && x.OK && x.Kind == "commit" {
+				if es, _, ok := pre.commitSnapshot(id); ok {
+					sn = append(sn, id+"="+entriesOut(es))
+				} else {
+					return nil
+				}
+			}
+		}
+		snS := "-"
+		if len(sn) > 0 {
+			snS = strings.Join(sn, ";")
+		}
+		line := fmt.Sprintf("cmd.reset %s %s %s %s %s %s %s", so, mi, ha, hx([]byte(rest[0])), hx(pre.LogHead), snS, entriesOut(pre.Index))
+		impl := "err"
+		if t.Res.Class == "ok" {
+			impl = "ok"
+		}
+		return &Derived{Line: line, Impl: impl, Verify: func(model string) string {
+			f := strings.Split(model, " ")
+			if f[0] != "ok" {
+				if t.Res.Class == "ok" {
+					return "the model refuses, the implementation succeeded"
+				}
+				return ""
+			}
+			if len(f) != 4 {
+				return "malformed model answer"
+			}
+			es := entriesIn(f[2])
+			blocked := false
+			want := map[string][]byte{}
+			for k, v := range pre.Files {
+				want[k] = v
+			}
+			if f[3] == "1" {
+				for _, e := range es {
+					x, ok := pre.Objects[hx(e.id)]
+					p := string(e.path)
+					if !ok || !x.OK || isDirIn(pre, p) {
+						blocked = true
+						continue
+					}
+					for q := range pre.Files {
+						if under(q, p) {
+							blocked = true
+						}
+					}
+					want[p] = x.Data
+				}
+				for _, a := range es {
+					for _, b := range es {
+						if under(string(a.path), string(b.path)) {
+							blocked = true
+						}
+					}
+				}
+			}
+			if t.Res.Class != "ok" {
+				if blocked {
+					return ""
+				}
+				return "the model resets, the implementation exited with an error"
+			}
+			if post.headCommit() != f[1] {
+				return "the current branch is not at the model's target " + f[1]
+			}
+			if entriesOut(post.Index) != f[2] {
+				return "staging area after reset differs from the model's"
+			}
+			if !blocked {
+				if d, ok := filesEqual(want, post.Files); !ok {
+					return "work tree after reset differs from the model's: " + d
+				}
+			}
+			return ""
+		}}
 	case "rm":
 		args := t.Args[1:]
 		if !argsOK(args) {
